@@ -106,6 +106,12 @@ def run_impl(sc):
         pp = PartProcessor('pp')
         oprobes = [AttributeProbe('quality', None), AttributeProbe('value', None)]
         O = OutputPartSensor(pp, oprobes, sc['pinterval'], 'output', inf if sc['ocap'] is None else sc['ocap'])
+
+        # a processing step registered after the sensor was constructed but before the run: the sensor (which hooks in when it is
+        # initialised) measures the part as that step leaves it
+        def final_touch(dev, part):
+            part.quality += 1 / TICK
+        pp.add_finish_processing_callback(final_touch)
         sensors = [P, O]
 
         def val(x):
@@ -206,7 +212,7 @@ def run_impl(sc):
                         from simprocesd.model import EventType
                         env.schedule_event(x[1] / TICK, -5, mk_dset(x[2], x[3]), EventType.OTHER_LOW_PRIORITY)
                     elif k == 'part':
-                        part = Part(quality=x[1] / TICK, value=x[2] / TICK)
+                        part = Part(quality=(x[1] - 1) / TICK, value=x[2] / TICK)       # (final_touch adds the missing tick)
                         for c in list(pp._finish_processing_callbacks):
                             c(pp, part)
                     elif k == 'cms':
